@@ -2,7 +2,8 @@
 //! Model-based: operation sequences against AuthProvider<Vec<User>> and a reference model; the auth
 //! route is exercised through a real App on loopback.
 
-use crate::common::net::{exchange, start_app};
+use crate::common::net::exchange;
+use crate::common::net_app::start_app;
 use crate::engine::{hash_of, pt, Ctx, Fail};
 use humphrey::http::{Response, StatusCode};
 use humphrey_auth::app::{AuthApp, AuthState};
